@@ -19,7 +19,7 @@
    known : none. *)
 From Coq Require Import List ZArith Bool String Arith.
 From IB Require Import Util.J Engine.Val Engine.Ops Engine.Nodes Engine.Exec Engine.Planner Engine.Lang
-     Engine.Denote Engine.Decode Engine.Canon Ckpt.Runner.
+     Engine.Denote Engine.Decode Engine.Canon Ckpt.Runner Ckpt.Manager.
 From IB Require Ckpt.Bincode Ckpt.Store.
 Import ListNotations.
 Open Scope Z_scope.
@@ -41,20 +41,35 @@ Inductive namespec :=
 (* a valid checkpoint of run r's pipeline id, written by the real save_checkpoint *)
 | NState (r : nat) (ts idx parts total : Z) (ntype mode : bytes) (pc : Z).
 
+(* a u64 / usize of any size: n (below 2^62) or [hi, lo] = hi * 2^32 + lo *)
+Definition dec_big (j : J) : option Z :=
+  match j with
+  | JI n => if n <? 0 then None else Some n
+  | JL [JI hi; JI lo] =>
+      if (0 <=? hi) && (hi <? 4294967296) && (0 <=? lo) && (lo <? 4294967296)
+      then Some (hi * 4294967296 + lo) else None
+  | _ => None
+  end.
 Definition dec_policy (j : J) : option Store.policy :=
   match j with
   | JL [JS t] => if tag_is t "barrier" then Some Store.AfterEveryBarrier else None
-  | JL [JS t; JI n] =>
-      if n <? 0 then None
-      else if tag_is t "every" then Some (Store.EveryNNodes n)
-      else if tag_is t "time" then Some (Store.TimeInterval n)
-      else None
-  | JL [JS t; JB b; JI n] =>
-      if n <? 0 then None else if tag_is t "hybrid" then Some (Store.Hybrid b n) else None
+  | JL [JS t; jn] =>
+      match dec_big jn with
+      | None => None
+      | Some n =>
+          if tag_is t "every" then Some (Store.EveryNNodes n)
+          else if tag_is t "time" then Some (Store.TimeInterval n)
+          else None
+      end
+  | JL [JS t; JB b; jn] =>
+      match dec_big jn with
+      | None => None
+      | Some n => if tag_is t "hybrid" then Some (Store.Hybrid b n) else None
+      end
   | _ => None
   end.
 Definition dec_max (j : J) : option (option Z) :=
-  match j with JN => Some None | JI z => if z <? 0 then None else Some (Some z) | _ => None end.
+  match j with JN => Some None | _ => option_map Some (dec_big j) end.
 Definition dec_cfg (j : J) : option (option cfg) :=
   match j with
   | JN => Some None
@@ -479,8 +494,176 @@ Definition failed_out (j : J) : bool :=
   | _ => false
   end.
 
+
+(* ================================================================== kind "mgr": the manager directly
+   in  = [enabled, policy, max|null, ops]
+         op = ["calls", total, [idx, ..]]   should_checkpoint(idx, false, total), (idx, true, total) per idx
+            | ["save", ts]                  save_checkpoint of the state the harness builds (pipeline id
+                                            MGR_PID, node index = position of the op, timestamp ts)
+            | ["last", null | ["rel", d] | ["abs", d]]   last_checkpoint_time = None | now + d s | epoch + d s
+   out = ["ok", [per op: [bool, ..] | "ok" | "err" | null], [[file name, size], ..]]
+   The wall clock is not observed.  The model is run under TWO clocks that bracket every real execution
+   (all operations in the same instant of mid 2025 / five seconds apart from early 2036 on): the
+   decisions are monotone in the time elapsed since `last`, so when both clocks give the same
+   answers every execution in between does; if they differ the case depends on the wall clock and is
+   malformed (the generator keeps intervals and offsets apart).
+   agree : observed = model.   prop : no panic, and every decision is what the policy's documentation says,
+   evaluated by `ref_decision` (written independently of Store.should_checkpoint: elapsed whole seconds by
+   division, multiples by gcd) along the observed script. *)
+Inductive lastspec := LNone | LRel (d : Z) | LAbs (d : Z).
+Inductive mopspec := OCalls (idxs : list Z) | OSave (ts : Z) | OLast (l : lastspec).
+
+Definition dec_mopspec (j : J) : option mopspec :=
+  match j with
+  | JL [JS t; a; JL l] =>
+      if tag_is t "calls" then
+        match dec_big a, omap dec_big l with Some _, Some idxs => Some (OCalls idxs) | _, _ => None end
+      else None
+  | JL [JS t; a] =>
+      if tag_is t "save" then option_map OSave (dec_big a)
+      else if tag_is t "last" then
+        match a with
+        | JN => Some (OLast LNone)
+        | JL [JS k; JI d] =>
+            if tag_is k "rel" then Some (OLast (LRel d))
+            else if tag_is k "abs" then Some (OLast (LAbs d)) else None
+        | _ => None
+        end
+      else None
+  | _ => None
+  end.
+
+Inductive mobs := BCalls (l : list bool) | BSaved (ok : bool) | BSet.
+Definition dec_mobs (j : J) : option mobs :=
+  match j with
+  | JN => Some BSet
+  | JS t => if tag_is t "ok" then Some (BSaved true) else if tag_is t "err" then Some (BSaved false) else None
+  | JL l => option_map BCalls (omap jbool l)
+  | _ => None
+  end.
+Definition dec_file (j : J) : option (bytes * Z) :=
+  match j with
+  | JL [jn; JI size] => option_map (fun n => (n, size)) (jbytes jn)
+  | _ => None
+  end.
+
+Definition NS : Z := 1000000000.
+Definition mgr_pid : bytes := string_bytes "00000000000000aa".
+Definition clk_lo (k : nat) : Z := 1750000000 * NS.
+Definition clk_hi (k : nat) : Z := (2100000000 + 5 * Z.of_nat k) * NS + 999999999.
+
+(* the state the harness builds for the k-th operation *)
+Definition mgr_state (H : bytes -> bytes) (k : nat) (ts : Z) : Bincode.cstate :=
+  mk_state H mgr_pid (Z.of_nat k) ts 1 (string_bytes "sequential") 1 (string_bytes "Stateless") 0.
+
+Definition timed_ops (H : bytes -> bytes) (clk : nat -> Z) (k : nat) (o : mopspec) : list (Z * mop) :=
+  let now := clk k in
+  match o with
+  | OCalls idxs => flat_map (fun i => [(now, MCall i false); (now, MCall i true)]) idxs
+  | OSave ts => [(now, MSave (mgr_state H k ts))]
+  | OLast LNone => [(now, MSetLast None)]
+  | OLast (LRel d) => [(now, MSetLast (Some (now + d * NS)))]
+  | OLast (LAbs d) => [(now, MSetLast (Some (d * NS)))]
+  end.
+Fixpoint script (H : bytes -> bytes) (clk : nat -> Z) (k : nat) (ops : list mopspec) : list (Z * mop) :=
+  match ops with
+  | [] => []
+  | o :: r => timed_ops H clk k o ++ script H clk (S k) r
+  end.
+
+Definition flat_obs (l : list mobs) : list mres :=
+  flat_map (fun o => match o with
+                     | BCalls bs => map RDecision bs
+                     | BSaved ok => [RSaved ok]
+                     | BSet => [RSet]
+                     end) l.
+Definition mres_eqb (a b : mres) : bool :=
+  match a, b with
+  | RDecision x, RDecision y => Bool.eqb x y
+  | RSaved x, RSaved y => Bool.eqb x y
+  | RSet, RSet => true
+  | _, _ => false
+  end.
+Fixpoint list_eqb {A} (eq : A -> A -> bool) (a b : list A) : bool :=
+  match a, b with
+  | [], [] => true
+  | x :: a', y :: b' => eq x y && list_eqb eq a' b'
+  | _, _ => false
+  end.
+Definition files_match (d : dir) (fs : list (bytes * Z)) : bool :=
+  Nat.eqb (List.length d) (List.length fs)
+  && forallb (fun f => existsb (fun e => bytes_eqb (fst e) (fst f)
+                                        && (Z.of_nat (List.length (snd e)) =? snd f)) d) fs.
+
+(* the reference, along the observed script: `last` is what the script itself says *)
+Definition ref_due (last : option Z) (now secs : Z) : bool :=
+  match last with
+  | None => true
+  | Some t => if now <? t then false else secs <=? (now - t) / NS
+  end.
+Definition ref_decision (enabled : bool) (p : Store.policy) (last : option Z) (now idx : Z) (barrier : bool) : bool :=
+  enabled &&
+  match p with
+  | Store.AfterEveryBarrier => barrier
+  | Store.EveryNNodes n => (1 <=? idx) && (1 <=? n) && (Z.gcd idx n =? n)
+  | Store.TimeInterval s => ref_due last now s
+  | Store.Hybrid bb s => if ref_due last now s then true else bb && barrier
+  end.
+Fixpoint ref_script (enabled : bool) (p : Store.policy) (clk : nat -> Z) (k : nat) (last : option Z)
+         (ops : list (mopspec * mobs)) : bool :=
+  match ops with
+  | [] => true
+  | (o, ob) :: r =>
+      let now := clk k in
+      match o, ob with
+      | OCalls idxs, BCalls bs =>
+          list_eqb Bool.eqb bs
+                   (flat_map (fun i => [ref_decision enabled p last now i false;
+                                        ref_decision enabled p last now i true]) idxs)
+          && ref_script enabled p clk (S k) last r
+      | OSave _, BSaved ok => ref_script enabled p clk (S k) (if ok then Some now else last) r
+      | OLast l, BSet =>
+          ref_script enabled p clk (S k)
+                     (match l with LNone => None | LRel d => Some (now + d * NS) | LAbs d => Some (d * NS) end) r
+      | _, _ => false
+      end
+  end.
+
+Definition check_mgr (input output : J) : verdict :=
+  match input with
+  | JL [JB enabled; jp; jm; JL jops] =>
+      match dec_policy jp, dec_max jm, omap dec_mopspec jops with
+      | Some p, Some max, Some ops =>
+          if failed_out output then ok_verdict false false
+          else
+            match output with
+            | JL [JS t; JL jres; JL jfiles] =>
+                match omap dec_mobs jres, omap dec_file jfiles with
+                | Some obs, Some files =>
+                    if tag_is t "ok" && Nat.eqb (List.length obs) (List.length ops) then
+                      let c := mk_cfg enabled p false max in
+                      let H := mkH [] in
+                      let run clk := mgr_run Store.dir_names c (mk_mgr None []) (script H clk 0 ops) in
+                      let '(rlo, mlo) := run clk_lo in
+                      let '(rhi, mhi) := run clk_hi in
+                      if list_eqb mres_eqb rlo rhi then
+                        ok_verdict (list_eqb mres_eqb rlo (flat_obs obs) && files_match (m_dir mlo) files)
+                                   (ref_script enabled p clk_lo 0 None (combine ops obs)
+                                    && ref_script enabled p clk_hi 0 None (combine ops obs))
+                      else malformed
+                    else malformed
+                | _, _ => malformed
+                end
+            | _ => malformed
+            end
+      | _, _, _ => malformed
+      end
+  | _ => malformed
+  end.
+
 Definition check_C11 (kind : string) (input output : J) : verdict :=
-  if String.eqb kind "hist" then
+  if String.eqb kind "mgr" then check_mgr input output
+  else if String.eqb kind "hist" then
     match input with
     | JL [jseeds; JL jruns] =>
         match dec_seeds jseeds, omap dec_run jruns with
